@@ -44,7 +44,7 @@ def compile_one(path, deps, rlib, outdir):
 # the class of error each unsound program must be rejected with (a rejection for another reason is not evidence)
 EXPECT = {'01': 'E0499', '02': 'E0499', '03': 'E0502', '04': 'E0499', '05': 'E0499', '06': 'E0521', '07': 'E0499',
           '08': 'mut entity access is forbidden', '09': 'E0277', '10': 'E0277', '11': 'E0597', '12': 'E0499',
-          '13': 'lifetime may not live long enough', '14': 'E0277', '15': 'E0277', '16': 'E0502'}
+          '13': 'lifetime may not live long enough', '14': 'E0277', '15': 'E0277', '16': 'E0502', '17': 'E0502', '18': 'E0499'}
 
 
 def run(repo, cache):
